@@ -41,6 +41,7 @@ type raceSpec struct {
 	Extra        int      `json:"extra"` // select mode: extra connections dialled to the winner's address afterwards (as dialExtraConns does)
 	Rogues       int      `json:"rogues"`     // select mode: strangers that connect first and authenticate as sender with RogueCode
 	RogueCode    string   `json:"rogue_code"` // "" = they connect and stay silent
+	SpawnDelayMs int      `json:"spawn_delay_ms"` // the caller is held this long before it counts and starts each dial goroutine
 }
 
 type sel struct {
@@ -328,6 +329,10 @@ func raceCase(args []string) string {
 			ctl.hit(addrLabel[s])
 		case "ice.main.got_result":
 			ctl.hit("main")
+		case "ice.spawn.before_add":
+			if g.SpawnDelayMs > 0 {
+				time.Sleep(time.Duration(g.SpawnDelayMs) * time.Millisecond)
+			}
 		case "ice.main.before_select":
 			if ctl.wantsPremain {
 				ctl.hit("premain")
